@@ -147,10 +147,20 @@ func Val(typ string, nullPct int, reps bool) *rapid.Generator[script.Val] {
 			if typ == "int2" || typ == "int4" || typ == "int8" {
 				opts = append(opts, "int")
 			}
+			if typ == "json" {
+				// pgx marshals anything but string/[]byte for a json column (a *string or a
+				// pgtype.Text becomes a JSON document, a nil pointer the JSON value null):
+				// what a handler means by those is not settled by the property - not generated
+				opts = []string{"native"}
+			}
 			v.Rep = rapid.SampledFrom(opts).Draw(t, "rep")
 		}
 		if nullPct > 0 && rapid.IntRange(1, 100).Draw(t, "null?") <= nullPct {
-			v.Null = rapid.SampledFrom([]string{"nil", "nilptr", "invalid"}).Draw(t, "null")
+			nulls := []string{"nil", "nilptr", "invalid"}
+			if typ == "json" {
+				nulls = []string{"nil"}
+			}
+			v.Null = rapid.SampledFrom(nulls).Draw(t, "null")
 			return v
 		}
 		switch typ {
